@@ -370,3 +370,17 @@ Theorem C01_fully_compressed_block_round_trip : forall strict window blockMax e 
                    push_fwd x1 lits1 (lenN lits1), bt).
 Proof. exact fully_compressed_block_round_trip. Qed.
 Print Assumptions C01_fully_compressed_block_round_trip.
+
+(* ---- frames built by the serialiser model, back to back with anything R decodes: the stream decodes to the concatenation ---- *)
+From ZV.Codec Require Import MultiFrameProofs.
+Theorem C01_model_frame_then_stream : forall cfg d p dictID bs rest e' x' c items,
+  params_ok p (lenN (blocks_content bs)) dictID -> bs <> [] -> c_magicless cfg = fp_magicless p ->
+  frame_window p (lenN (blocks_content bs)) <= c_window_max cfg -> dict_ok d p dictID ->
+  blocks_spec (c_strict_window cfg) (frame_window p (lenN (blocks_content bs)))
+              (N.min (N.min (frame_window p (lenN (blocks_content bs))) BLOCK_MAX) (c_block_max cfg))
+              (dict_entropy d) (x_init d) bs = Ok (e', x') ->
+  ext (x_init d) x' (blocks_content bs) ->
+  R cfg d rest = Ok (c, items) ->
+  exists t, R cfg d (enc_frame p dictID bs ++ rest) = Ok (blocks_content bs ++ c, FZstd t (lenN (blocks_content bs)) :: items).
+Proof. exact R_model_frame_then_stream. Qed.
+Print Assumptions C01_model_frame_then_stream.
